@@ -173,6 +173,28 @@ def w_gain_patterns(r, c, nch):
     return pats
 
 
+def w_hot_values(c):
+    """source samples a special-cased gain is most likely to get wrong: the range ends (negation, doubling,
+    saturation), +-1 and +-3 (halving of odd values), values with more significant bits than the float companion
+    holds (c is the code of the Signed format the values belong to)"""
+    if c >= 12:
+        w = W_BITS[c]
+        return [fbits(w, x) for x in (1.0, -1.0, 0.5, -0.75, 1e-3)] + [fbits(w, 1.0) - 1, (fbits(w, 1.0) + 1) | (1 << (w - 1))]
+    lo, hi = w_range(c)
+    b = W_BITS[c]
+    e = min(b - 2, w_mant(64 if c in (4, 5) else 32))
+    return [lo, hi, lo + 1, hi - 1, -1, 1, -3, 3, (1 << e) + 1, -(1 << e) - 1, (1 << (b - 2)) + 3, -(1 << (b - 2)) - 5]
+
+
+def w_hot_pair(c, nch, j):
+    """first frame pair of a gain case: destination AT the equilibrium (the sum is then the scaled source itself and
+    cannot overflow, whatever the gain), source = hot values rotating with the case counter j"""
+    sg = W_SIGNED[c]
+    hot = w_hot_values(sg)
+    eq = 0 if c >= 12 else w_half(c)
+    return [eq] * nch, [hot[(j + ch) % len(hot)] for ch in range(nch)]
+
+
 def w_item(mode, op, c, shape, a, b, amp, k, family):
     return build(dict(kind="W", mode=mode, op=op, fmt=c, shape=shape, a=a, b=b, amp=amp, k=k, family=family))
 
@@ -180,6 +202,7 @@ def w_item(mode, op, c, shape, a, b, amp, k, family):
 def gen_w_cases(rng, tier):
     """mode 0 (dev) items; the release-mode twins are made from them by `with_mode`"""
     items = []
+    hot_j = 0
     reps = 1 if tier == "quick" else 5
     for rep_i in range(reps):
         for c in range(14):
@@ -192,12 +215,18 @@ def gen_w_cases(rng, tier):
                 for rd in range(rounds):
                     for nm, amp in w_gain_patterns(r, c, nch):
                         n = r.range(1, 2)
-                        items.append(w_item(0, 5, c, shape, w_frames(r, c, nch, n, w_a_val), w_frames(r, sg, nch, n, w_val),
-                                            amp, 0, "amp:" + nm))
+                        a, b = w_frames(r, c, nch, n, w_a_val), w_frames(r, sg, nch, n, w_val)
+                        if (hot_j + rd) % 2 == 0:
+                            a[0], b[0] = w_hot_pair(c, nch, hot_j)
+                        hot_j += 1
+                        items.append(w_item(0, 5, c, shape, a, b, amp, 0, "amp:" + nm))
                     for nm, amp in w_gain_patterns(r, c, 1)[:4] + w_gain_patterns(r, c, 1)[-2:-1]:
                         n = r.range(1, 2)
-                        items.append(w_item(0, 2, c, shape, w_frames(r, c, nch, n, w_a_val), w_frames(r, sg, nch, n, w_val),
-                                            amp, 0, "zipscale:" + nm[4:] if nm.startswith("all_") else "zipscale:" + nm))
+                        a, b = w_frames(r, c, nch, n, w_a_val), w_frames(r, sg, nch, n, w_val)
+                        if (hot_j + rd) % 2 == 0:
+                            a[0], b[0] = w_hot_pair(c, nch, hot_j)
+                        hot_j += 1
+                        items.append(w_item(0, 2, c, shape, a, b, amp, 0, "zipscale:" + (nm[4:] if nm.startswith("all_") else nm)))
                 # add_in_place: b boundary-structured; b = 0; a at the range ends (overflow in the checked build)
                 n = r.range(1, 3)
                 items.append(w_item(0, 4, c, shape, w_frames(r, c, nch, n, w_a_val), w_frames(r, sg, nch, n, w_val), [], 0, "add"))
@@ -211,12 +240,13 @@ def gen_w_cases(rng, tier):
                 for kk in ([0, 1, -1, w_int_val(r, sg)] if c < 12 else [0, fbits(W_BITS[c], 1.0), w_float_val(r, W_BITS[c])]):
                     items.append(w_item(0, 1, c, shape, w_frames(r, c, nch, r.range(1, 3), w_a_val), [], [], kk, "map_offset"))
                 # length mismatch through the generic instances (the assert is before the loop for every format)
-                op = r.choice([2, 3, 4, 5])
-                la = r.range(0, 3)
-                lb = la + r.choice([1, 2]) if r.chance(1, 2) or la == 0 else la - 1
-                items.append(w_item(0, op, c, shape, w_frames(r, c, nch, la, w_a_val),
-                                    w_frames(r, c if op == 3 else sg, nch, lb, w_val),
-                                    [fbits(w_fw(c), 1.0)] * nch, 0, "mismatch"))
+                # (with a special-cased gain: an early-out for a gain must not come before the assert)
+                for op in (5, r.choice([2, 3, 4])):
+                    la = r.range(0, 3)
+                    lb = la + r.choice([1, 2]) if r.chance(1, 2) or la == 0 else la - 1
+                    nm, amp = r.choice(w_gain_patterns(r, c, nch)[:6])
+                    items.append(w_item(0, op, c, shape, w_frames(r, c, nch, la, w_a_val),
+                                        w_frames(r, c if op == 3 else sg, nch, lb, w_val), amp, 0, "mismatch:" + nm))
     return items
 
 
@@ -686,7 +716,7 @@ def finish(rep, info, n, nontriv, dist, samples, bad=()):
                 "W: every one of the 14 sample formats x {bare, [S;2], [S;3]} x {add_in_place_with_amp_per_channel with each special gain "
                 "(1, 0, -1, 0.5, -0, 2, 1-ulp, 1+ulp) on ALL channels, special gains mixed per channel, random gains; zip_map_in_place with an "
                 "add_amp(scale_amp(g)) closure for g in 1, 0, -1, 0.5, random; add_in_place (plain, range ends, zero source); write; equilibrium; "
-                "map_in_place with offset_amp(k); one length mismatch}, samples from the boundary-structured set (MIN, MAX, equilibrium +-1, "
+                "map_in_place with offset_amp(k); two length mismatches under a special gain}; in half of the gain cases the first frame pair is (equilibrium, hot source values: range ends, +-1, +-3, 2^mantissa + 1, ...) so that the scaled source is observed unmasked, samples from the boundary-structured set (MIN, MAX, equilibrium +-1, "
                 "+-2^k +-1, values off the float companion's grid, small, uniform), 1..2 frames (1..3 for the gain-free operations); each W case in dev vs the Checked model, in release vs the dev "
                 "observation when the dev build did not panic and vs the Wrapping model when it did, and in relchk vs dev (I24/I48 with a dev panic: vs release); the 32/64-bit formats get every gain pattern twice. "
                 "non-trivial = N >= 2 and L not a multiple of N (the divisibility "
